@@ -36,16 +36,17 @@ type PropDef struct {
 var propDefs = map[string]*PropDef{}
 
 type checkCtx struct {
-	prop      *PropDef
-	tier      string
-	seed      int64
-	progs     map[string]*Prog
-	specs     map[string]*Specs
-	mu        sync.Mutex
-	fns       map[string]bool // functions under contract
-	ext       map[string]bool // extern models / assumptions used
-	bounded   []string
-	boundedOK []string
+	prop        *PropDef
+	tier        string
+	seed        int64
+	progs       map[string]*Prog
+	specs       map[string]*Specs
+	mu          sync.Mutex
+	fns         map[string]bool // functions under contract
+	ext         map[string]bool // extern models / assumptions used
+	bounded     []string
+	boundedOK   []string
+	foreignDone map[string]bool // contracts on functions of other modules already scheduled
 }
 
 func (c *checkCtx) prog(module string) (*Prog, error) {
@@ -181,8 +182,25 @@ func cmdCheck(id, tier string, writeBaseline bool) int {
 		c.specs[pr.Path] = specs
 		// functions whose contract names this property: all their verification conditions
 		var fnames []string
+		ownPkgs := map[string]bool{}
+		for _, q := range pd.Pkgs {
+			if qp, err := c.prog(q.Module); err == nil && qp.PPkgs[q.Path] != nil {
+				ownPkgs[qp.PPkgs[q.Path].Name] = true
+			}
+		}
 		for n, fs := range specs.Funcs {
-			if hasProp(fs.Props, id) && strings.HasPrefix(n, pp.Name+".") {
+			if !hasProp(fs.Props, id) {
+				continue
+			}
+			if strings.HasPrefix(n, pp.Name+".") {
+				fnames = append(fnames, n)
+			} else if i := strings.Index(n, "."); i > 0 && !ownPkgs[n[:i]] && !fs.Trusted && !c.foreignDone[n] && prog.Func(strings.SplitN(n, "~", 2)[0]) != nil {
+				// a contract on a function of another module (`//@ func ::pkg.F`) that is not
+				// marked trusted is verified here, once, against the code this module is built with
+				if c.foreignDone == nil {
+					c.foreignDone = map[string]bool{}
+				}
+				c.foreignDone[n] = true
 				fnames = append(fnames, n)
 			}
 		}
